@@ -88,6 +88,54 @@ def build_encoding(ob, work):
     return cfile, info
 
 
+def pointsto_guard(cmd, timeout, mem_gb):
+    """run `cbmc --program-only` and classify, statement by statement and without keeping the (multi-GB) text, every access that
+    CBMC resolved to its integer-address memory: returns (rc, accesses resolving to it alone, accesses that keep real objects, wall)"""
+    def lim():
+        b = int(mem_gb * (1 << 30))
+        resource.setrlimit(resource.RLIMIT_AS, (b, b))
+        os.setsid()
+    t0 = time.time()
+    p = subprocess.Popen(cmd, stdout=subprocess.PIPE, stderr=subprocess.DEVNULL, preexec_fn=lim, text=True, errors='replace')
+    cnt = [0, 0]
+    cur = []
+    pat = re.compile(r'__CPROVER_memory(?!_leak)')
+    start = re.compile(r'^\(\d+\) ')
+
+    def flush():
+        if not cur:
+            return
+        st = ''.join(cur)
+        k = len(pat.findall(st))
+        if k:
+            # a dereference whose case split still lists real objects besides the integer-address fallback (legal when a guarded
+            # sentinel such as (void *)-1 is in the points-to set) vs one that resolves to the fallback alone
+            if '__CPROVER_POINTER_OBJECT(&' in st or re.search(r'== &[A-Za-z_]', st):
+                cnt[1] += k
+            else:
+                cnt[0] += k
+        del cur[:]
+    rc = 0
+    try:
+        for ln in p.stdout:
+            if time.time() - t0 > timeout:
+                rc = -9
+                break
+            if start.match(ln):
+                flush()
+            if len(cur) < 4000:
+                cur.append(ln)
+        flush()
+    finally:
+        if p.poll() is None:
+            try:
+                os.killpg(p.pid, 9)
+            except Exception:
+                p.kill()
+        p.wait()
+    return rc, cnt[0], cnt[1], time.time() - t0
+
+
 def loop_bounds(ob, cfile, info=None):
     """per-loop unwinding: runtime (rt/) loops get a bound covering slots/buffer depth; translated code gets ob['unwind'];
     ob['unwind_fn'] = {regex on function name: bound} overrides."""
@@ -201,21 +249,10 @@ def _run_obligation(ob, workroot, keep=False):
     # fail-closed guard (DESIGN 2.2): a dereference that CBMC resolves to its integer-address memory would be a
     # silently lost access; symbolic execution only (no solving), run concurrently with the real query
     guard = cf.ThreadPoolExecutor(max_workers=1)
-    gfut = guard.submit(sh, [c for c in cmd if c != '--json-ui'] + ['--program-only'], ob.get('timeout', 600), ob.get('mem_gb', 12))
+    gfut = guard.submit(pointsto_guard, [c for c in cmd if c != '--json-ui'] + ['--program-only'], ob.get('timeout', 600), ob.get('mem_gb', 12))
     rc, out, err, wall = sh(cmd, timeout=ob.get('timeout', 600), mem_gb=ob.get('mem_gb', 12))
-    grc, gout, gerr, gwall = gfut.result()
+    grc, nlost, nalt, gwall = gfut.result()
     guard.shutdown()
-    nlost = 0; nalt = 0
-    for ln in re.split(r'\n(?=\(\d+\) )', gout):       # one SSA statement per chunk (long ones wrap over several lines)
-        k = len(re.findall(r'__CPROVER_memory(?!_leak)', ln))
-        if not k:
-            continue
-        # a dereference whose case split still lists real objects besides the integer-address fallback (legal when a
-        # guarded sentinel such as (void *)-1 is in the points-to set) vs one that resolves to the fallback alone
-        if '__CPROVER_POINTER_OBJECT(&' in ln or re.search(r'== &[A-Za-z_]', ln):
-            nalt += k
-        else:
-            nlost += k
     res['pointsto_guard'] = {'integer_address_only_accesses': nlost, 'accesses_with_fallback_branch': nalt, 'symex_s': round(gwall, 1)}
     if nalt and not ob.get('intaddr_ok'):
         nlost += nalt
